@@ -379,6 +379,12 @@ fn deep_jobs(cfg: &Config, total: &mut Report, thorough: bool) {
 			jobs.push((k, d));
 		}
 	}
+	// the flat shapes also with exactly 2^16 and 2^17 repetitions (counters and block sizes of that width)
+	for k in 14..DEEP_KINDS.len() {
+		jobs.push((k, 65_536));
+		jobs.push((k, 131_072));
+		jobs.push((k, 65_535));
+	}
 	let jobs = std::sync::Arc::new(jobs);
 	let j2 = jobs.clone();
 	let rep = parallel(cfg.threads, jobs.len(), move |i| {
